@@ -331,7 +331,7 @@ def find_dict_literal(cls, expr, depth=0, fn=None):
         if d > 8 or e is None:
             return
         if isinstance(e, ast.Dict):
-            if not any(x is e for x in found):
+            if not any(x is e for x in found) and not any(ast.dump(x) == ast.dump(e) for x in found):     # the display and its copy in an expanded caller are one
                 found.append(e)
             return
         if isinstance(e, (ast.Name, ast.Attribute)) and fn is not None and d < 8:
